@@ -4,16 +4,6 @@
    Not part of the common build: compiled by ./check C01 before GenC01.v. *)
 From Verif Require Import Base Seq ListImpl ListMachine SeqProofs MiniGo GenSrc GenRep GenLib GenIter GenSeq.
 
-(* rewrite the call of GetSize / IsEmpty / AsArray / GetIterator on an operand that is in head position *)
-Ltac op_size OP := match goal with |- context[i_call (interp_at _ _ _ _ ?FF) ?sv id_GetSize []] =>
-  rewrite (proj1 (OP FF ltac:(lia))) end.
-Ltac op_empty OP := match goal with |- context[i_call (interp_at _ _ _ _ ?FF) ?sv id_IsEmpty []] =>
-  rewrite (proj1 (proj2 (OP FF ltac:(lia)))) end.
-Ltac op_array OP := match goal with |- context[i_call (interp_at _ _ _ _ ?FF) ?sv id_AsArray []] =>
-  rewrite (proj1 (proj2 (proj2 (OP FF ltac:(lia))))) end.
-Ltac op_iter OP := match goal with |- context[i_call (interp_at _ _ _ _ ?FF) ?sv id_GetIterator []] =>
-  rewrite (proj2 (proj2 (proj2 (OP FF ltac:(lia))))) end.
-
 Ltac loop_enter F K := rewrite loop_S; unfold loop_step; fuel F K.
 
 Set Warnings "-unused-intro-pattern".
@@ -22,30 +12,10 @@ Variable A : Type.
 Variable zero : A.
 Variable ext : ident -> ident -> val A -> list (val A) -> option (val A).
 Notation call_at F := (i_call (interp_at A zero ext prog F)).
+Notation seq_operand := (seq_operand A zero ext).
 Notation run_method := (MiniGo.run_method A zero ext prog).
 
 (* ---------- array.GetValues(first, last): v[first : last+1] copied into a fresh array ---------- *)
-Lemma zsub_elems (l : list A) (lo hi : Z) : (0 <= lo <= hi)%Z -> (hi <= Z.of_nat (length l))%Z ->
-  zsub A (elems l) lo hi = Some (elems (firstn (Z.to_nat (hi - lo)) (skipn (Z.to_nat lo) l))).
-Proof.
-  intros H1 H2. unfold zsub. rewrite elems_length.
-  destruct (Z.ltb_spec lo 0); [lia|]. destruct (Z.ltb_spec hi lo); [lia|].
-  destruct (Z.ltb_spec (Z.of_nat (length l)) hi); [lia|]. cbn [orb].
-  rewrite elems_skipn, elems_firstn. reflexivity.
-Qed.
-
-Lemma zsub_none (l : list (val A)) (lo hi : Z) : (hi < lo \/ Z.of_nat (length l) < hi)%Z -> zsub A l lo hi = None.
-Proof.
-  intros H. unfold zsub. destruct (Z.ltb_spec lo 0); [reflexivity|]. destruct (Z.ltb_spec hi lo); [reflexivity|].
-  destruct (Z.ltb_spec (Z.of_nat (length l)) hi); [reflexivity|lia].
-Qed.
-
-Lemma zcopy_exact (z : val A) (src : list (val A)) : zcopy A (repeat z (length src)) src = src.
-Proof.
-  unfold zcopy. rewrite repeat_length, firstn_all.
-  rewrite skipn_all2 by (rewrite repeat_length; lia). apply app_nil_r.
-Qed.
-
 Lemma gen_array_GetValues l i j F : (Z.of_nat (length l) < two63)%Z -> 30 <= F ->
   call_at F (arr_val l) id_GetValues [VInt i; VInt j] =
   match get_values l i j with Ret r => ROk (arr_val r, arr_val l) | _ => RPanic (arr_val l) end.
@@ -67,36 +37,8 @@ Proof.
     rewrite <- LR at 1. rewrite zcopy_exact. gorun. reflexivity.
 Qed.
 
-(* ---------- operands: any sequence that answers GetSize / IsEmpty / AsArray / GetIterator like [src] ---------- *)
-Definition seq_operand (sv : val A) (src : list A) : Prop :=
-  forall F, 40 <= F ->
-    call_at F sv id_GetSize [] = ROk (VInt (Z.of_nat (length src)), sv) /\
-    call_at F sv id_IsEmpty [] = ROk (VBool (length src =? 0), sv) /\
-    call_at F sv id_AsArray [] = ROk (VSlice (elems src), sv) /\
-    call_at F sv id_GetIterator [] = ROk (it_rep A VNil (it_make src), sv).
-
-Lemma seq_operand_arr src : (Z.of_nat (length src) < two63)%Z -> seq_operand (arr_val src) src.
-Proof.
-  intros HL F HF. rewrite (gen_array_GetSize A zero ext), (gen_array_IsEmpty A zero ext),
-    (gen_array_AsArray A zero ext), (gen_array_GetIterator A zero ext) by (assumption || lia). repeat split.
-Qed.
-Lemma seq_operand_lst n src : (Z.of_nat (length src) < two63)%Z -> seq_operand (lst_val n src) src.
-Proof.
-  intros HL F HF. rewrite (gen_list_GetSize A zero ext), (gen_list_IsEmpty A zero ext),
-    (gen_list_AsArray A zero ext), (gen_list_GetIterator A zero ext) by (assumption || lia). repeat split.
-Qed.
-
 (* ---------- array.SetValues(index, values): copy(v[first:last], values.AsArray()) ---------- *)
-Lemma zcopy_same (d s : list (val A)) : length d = length s -> zcopy A d s = s.
-Proof.
-  intros H. unfold zcopy. rewrite H, firstn_all. rewrite skipn_all2 by lia. apply app_nil_r.
-Qed.
 
-Lemma zsplice_elems (l : list A) (a b : nat) (seg : list A) :
-  zsplice A (elems l) (Z.of_nat a) (Z.of_nat b) (elems seg) = elems (firstn a l ++ seg ++ skipn b l).
-Proof.
-  unfold zsplice. rewrite !Nat2Z.id, elems_firstn, elems_skipn, !elems_app. reflexivity.
-Qed.
 
 Lemma gen_array_SetValues l i sv src F :
   seq_operand sv src -> (Z.of_nat (length l) < two63)%Z -> 90 <= F ->
@@ -119,7 +61,7 @@ Proof.
   set (sub := firstn (Z.to_nat (Z.of_nat (first + S (length src')) - Z.of_nat first)) (skipn (Z.to_nat (Z.of_nat first)) l)).
   assert (LS : length (elems sub) = length (elems (s0 :: src'))).
   { rewrite !elems_length. unfold sub. rewrite firstn_length, skipn_length. cbn [length]. lia. }
-  rewrite (zcopy_same _ _ LS). rewrite LS, Nat.eqb_refl. gorun.
+  rewrite (zcopy_same A _ _ LS). rewrite LS, Nat.eqb_refl. gorun.
   rewrite zsplice_elems. gorun.
   replace (S (first + S (length src') - 1) - first) with (S (length src')) by lia.
   replace (S (first + S (length src') - 1)) with (first + S (length src')) by lia.
@@ -132,7 +74,7 @@ Lemma gen_list_SetValues n l i sv src F :
   call_at F (lst_val n l) id_SetValues [VInt i; sv] =
   match set_values l i src with Ret l' => ROk (VTuple [], lst_val n l') | _ => RPanic (lst_val n l) end.
 Proof.
-  intros OP HL HF. fuel F 10. gocall. rewrite (gen_array_SetValues l i sv src) by (assumption || lia).
+  intros OP HL HF. fuel F 10. gocall. rewrite ?(proj2 (proj1 OP)). rewrite (gen_array_SetValues l i sv src) by (assumption || lia).
   destruct (set_values l i src); gorun; reflexivity.
 Qed.
 Lemma gen_list_GetValues n l i j F : (Z.of_nat (length l) < two63)%Z -> 36 <= F ->
